@@ -168,11 +168,16 @@ def build_ops(params, symbolic):
     prod_of = {i: grammar.productions[1 + n] for n, i in enumerate(order)}
     term_of = {i: grammar.get_terminal(OPS[i]) for i in range(k)}
     exprs = expressions(k, maxops)
-    if symbolic:
+    tie_problem = None
+    try:
         _frontend_tie(k, order, lefts)
+    except AssertionError as e:
+        tie_problem = str(e)
     stats = {}
 
     def body(ps):
+        if tie_problem:
+            return tie_problem
         grammar.productions[0].rhs = saved_rhs
         for a in range(k):
             for b in range(a + 1, k):
